@@ -12,8 +12,8 @@
 #define R_STEP 2629746ULL
 
 /* status codes as documented in polyseed.h */
-enum { R_OK = 0, R_NUM_WORDS = 1, R_LANG = 2, R_CHECKSUM = 3, R_UNSUPPORTED = 4,
-       R_FORMAT = 5, R_MEMORY = 6, R_MULT_LANG = 7 };
+enum { ST_OK = 0, ST_NUM_WORDS = 1, ST_LANG = 2, ST_CHECKSUM = 3, ST_UNSUPPORTED = 4,
+       ST_FORMAT = 5, ST_MEMORY = 6, ST_MULT_LANG = 7 };
 
 typedef struct rseed {
     uint8_t secret[19];   /* 150 bits: bytes 0..17 and the low 6 bits of byte 18 */
